@@ -54,6 +54,39 @@ class LazySrc:
         pass
 
 
+class KeepingSrc(LazySrc):
+    """a source that itself keeps every item it has handed out (a page reader): its items live as long as it does, so
+    a tool must let go of it once it is exhausted"""
+
+    def __init__(self, *a_, **kw):
+        LazySrc.__init__(self, *a_, **kw)
+        self.handed = []
+
+    async def __anext__(self):
+        x = await LazySrc.__anext__(self)
+        self.handed.append(x)
+        return x
+
+
+class LazyTable:
+    """a *synchronous*, sized, re-iterable collection (len / iter / in) that creates its rows on demand while iterated"""
+
+    def __init__(self, tr, n, keyf=lambda i: i % 7 + 1):
+        self.tr, self.n, self.keyf = tr, n, keyf
+
+    def __len__(self):
+        return self.n
+
+    def __contains__(self, x):
+        return False
+
+    def __iter__(self):
+        for i in range(1, self.n + 1):
+            self.tr.samples.append(self.tr.alive)
+            yield self.tr.new(i, self.keyf(i))
+        self.tr.samples.append(self.tr.alive)
+
+
 async def drain(it):
     async for x in it:
         del x
@@ -89,6 +122,16 @@ def tools(N):
     T["nlargest"] = (1, 5, lambda tr: a.nlargest(LazySrc(tr, N, keyf=inc), 5))
     T["nsmallest"] = (1, 5, lambda tr: a.nsmallest(LazySrc(tr, N, keyf=lambda i: -i), 5))
     T["groupby"] = (1, 1, lambda tr: _groupby(tr, N))
+    # an exhausted short source that owns its items must be let go of while the long one is still streamed
+    # (while it lives the short source holds its 8 items itself: window 8; over the last third of the run it must be gone)
+    T["zip_longest short keeping source"] = (2, 8, lambda tr: drain(a.zip_longest(LazySrc(tr, N), KeepingSrc(tr, 8, base=N))), PER_SOURCE * 2)
+    # synchronous sized collections producing rows on demand
+    T["enumerate(table)"] = (1, 0, lambda tr: drain(a.enumerate(LazyTable(tr, N))))
+    T["map(table)"] = (1, 0, lambda tr: drain(a.map(lambda x: x.key, LazyTable(tr, N))))
+    T["pairwise(table)"] = (1, 1, lambda tr: drain(a.pairwise(LazyTable(tr, N))))
+    T["max(table)"] = (1, 1, lambda tr: a.max(LazyTable(tr, N, keyf=inc)))
+    T["reduce(table)"] = (1, 1, lambda tr: a.reduce(lambda acc, x: x if x.key >= acc.key else acc, LazyTable(tr, N)))
+    T["sum(table)"] = (1, 0, lambda tr: a.sum(LazyTable(tr, N)))
     T["any_iter"] = (1, 0, lambda tr: drain(a.any_iter(LazySrc(tr, N))))
     return T
 
@@ -166,7 +209,9 @@ def run(tier, seed):
     sizes = [50, 400] if tier == "quick" else [50, 400, 2000]
     maxima = {}
     for N in sizes:
-        for name, (nsrc, window, build) in tools(N).items():
+        for name, spec in tools(N).items():
+            nsrc, window, build = spec[:3]
+            tail_bound = spec[3] if len(spec) > 3 else None
             tr = Tracker()
             try:
                 drive(build(tr))
@@ -181,6 +226,10 @@ def run(tier, seed):
             if err is not None:
                 fails += 1
                 rep.violation("retention:%s" % name, {"tool": name, "stream": N, "why": "the tool failed: %r" % (err,)})
+            elif tail_bound is not None and tr.samples and builtins.max(tr.samples[-(len(tr.samples) // 3):]) > tail_bound:
+                fails += 1
+                rep.violation("retention:%s" % name, {"tool": name, "stream": N, "why": "%d source items still alive in the last third of the run, bound is %d" % (
+                    builtins.max(tr.samples[-(len(tr.samples) // 3):]), tail_bound)})
             elif mx > bound:
                 fails += 1
                 rep.violation("retention:%s" % name, {"tool": name, "stream": N, "why": "%d source items alive at a pull, bound is %d per source x %d + window %d" % (mx, PER_SOURCE, nsrc, window)})
